@@ -8,6 +8,16 @@ import Std.Data.String.ToInt
 namespace CnvVerif.Export
 open CnvVerif
 
+/-! ### the literals of the source are those the property names -/
+
+theorem vcf_pos_replace_eq : Generated.VCF_POS_REPLACE_FROM = 0 ∧ Generated.VCF_POS_REPLACE_TO = 1 := ⟨rfl, rfl⟩
+theorem vcf_svtype_eq : Generated.VCF_SVTYPE_LOSS = "DEL" ∧ Generated.VCF_SVTYPE_GAIN = "DUP" := ⟨rfl, rfl⟩
+theorem vcf_format_eq : Generated.VCF_FORMAT_LOSS = ["GT", "GQ"] ∧
+    Generated.VCF_FORMAT_GAIN = ["GT", "GQ", "CN", "CNQ"] := ⟨rfl, rfl⟩
+theorem vcf_svlen_factor_eq : Generated.VCF_SVLEN_LOSS_FACTOR = -1 := rfl
+theorem seg_start_shift_eq : Generated.SEG_START_SHIFT = 1 := rfl
+theorem label_start_shift_eq : Generated.LABEL_START_SHIFT = 1 := rfl
+
 /-! ### list plumbing: boolean masks, zipWith, filterMap -/
 
 theorem maskSelect_map {α β} (f : α → β) (p : α → Bool) (l : List α) :
@@ -117,7 +127,8 @@ theorem vcfEmit_cols (cfg : Cfg) (first : String) (r : Seg) (hp : probesDigit cf
     vcfEmit cfg (vcfCols cfg first r) =
       if vcfKeep cfg first r then some (vcfRecOf cfg first r) else none := by
   unfold vcfEmit vcfCols vcfKeep vcfRecOf
-  simp only [hp, expectVcf_eq]
+  simp only [hp, expectVcf_eq, vcf_pos_replace_eq.1, vcf_pos_replace_eq.2, vcf_svtype_eq.1, vcf_svtype_eq.2,
+    vcf_format_eq.1, vcf_format_eq.2, vcf_svlen_factor_eq]
   by_cases heq : ncopiesOf cfg first r = expectedCopies cfg first r
   · simp [heq]
   · by_cases hlt : ncopiesOf cfg first r < expectedCopies cfg first r
@@ -173,7 +184,7 @@ theorem renameChrom_nil (c : String) : renameChrom [] c = c := rfl
 
 theorem formatSeg_nil (sm : SegSample) : formatSeg [] sm = sm.rows.map (segSpecRow sm) := by
   unfold formatSeg segSpecRow
-  simp [renameChrom_nil]
+  simp [renameChrom_nil, seg_start_shift_eq]
 
 theorem exportSeg_plain (samples : List SegSample) : exportSeg false samples = segSpec samples := by
   unfold exportSeg segSpec
@@ -189,7 +200,7 @@ def SegOut.core (o : SegOut) : String × Int × Int × Option Int × Rat := (o.i
 theorem formatSeg_core (ids : List (String × Nat)) (sm : SegSample) :
     (formatSeg ids sm).map SegOut.core = (sm.rows.map (segSpecRow sm)).map SegOut.core := by
   unfold formatSeg segSpecRow SegOut.core
-  simp
+  simp [seg_start_shift_eq]
 
 theorem exportSeg_core (en : Bool) (samples : List SegSample) :
     (exportSeg en samples).map SegOut.core = (segSpec samples).map SegOut.core := by
